@@ -1,11 +1,13 @@
 """C14 — point-in-polygon queries and polygon measures are exact."""
 CONFIG = {
     "manifest": {
-        "level_text": "Coq theorems, closed under the global context, for EVERY vertex list and query point: the model of Polygon::contain (mirroring the C++ statement by statement, early exits and shortcuts included) equals 'on the boundary or non-zero winding number' under an independent crossing-sum specification (both half-open conventions); the group queries equal map / forall / exists of the single test for any pre-filter box containing the vertices (so the mistyped y-comparison in the five pre-filters is proved harmless); the fan sums equal the shoelace sum and the closed edge list, zero below three vertices. The model is tied to /repo on every run by the extracted model and specification evaluated on the same polygons and points as the real functions (exhaustive small grids plus degenerate random cases).",
-        "level_note": "Trusted: Coq kernel, extraction, harness. Coordinates are integers below 2^24 so that the C++ double arithmetic is exact; the perimeter's sqrt sum is compared in double arithmetic by the driver (4 ulp), not proved. Repetition extrema / counts enter as inputs (C11).",
+        "level_text": "Coq theorems, closed under the global context, for EVERY vertex list and query point: the model of Polygon::contain (mirroring the C++ statement by statement, early exits and shortcuts included) equals 'on the boundary or non-zero winding number' under an independent crossing-sum specification (both half-open conventions); the group queries equal map / forall / exists of the single test for any pre-filter box containing the vertices (so the mistyped y-comparison in the five pre-filters is proved harmless); the fan sums equal the shoelace sum and the closed edge list, zero below three vertices. Perimeter (Perimeter.v, Properties_C14P.v): a bit-exact IEEE binary64 model of Polygon::perimeter over Flocq's operations (round to nearest even; two subtractions, two products, a sum, a square root and an accumulation per edge, the running vertex advanced by `v0 += v1`, the closing edge from the stored vertices, the count converted from uint64); perimeter_exact_input: for integer coordinates |c| <= 2^24 the model equals the specification 'correctly rounded square root of the exact integer dx^2+dy^2 for every closed edge, summed in vertex order, times the count' as binary64 values, Pythagorean edges exact; perimeter_error: for EVERY finite input whose coordinates are multiples of 2^-500 of magnitude at most 2^500 (no overflow, no subnormal product), up to 2^40 vertices and any count below 2^64, the result is finite, non-negative and |perimeter - count * exact closed edge-length sum| <= ((1+u)^(n+7) - 1) * count * sum with u = 2^-53; +0 below three vertices for any vertices; the exact sum is invariant under rotation and reversal of the vertex list while the floating-point value is not (refutation witnesses replayed on the real function). The model is tied to /repo on every run by the extracted model and specification evaluated on the same polygons and points as the real functions (exhaustive small grids plus degenerate random cases).",
+        "level_note": "Trusted: Coq kernel, extraction, harness. Coordinates of the containment and area cases are integers below 2^24 so that the C++ double arithmetic is exact. perimeter() is compared BIT FOR BIT with the extracted binary64 model on integer vertices (kind perim, also against the extracted specification) and on arbitrary finite doubles (kind perimb: dyadic fractions down to 2^-20, magnitudes up to 2^40, mixed magnitudes whose differences are inexact, exponents up to +-300, counts above 2^53); its property-level oracle is the proved error bound against a long double evaluation of the exact sum. The perimeter theorems depend on the standard-library axioms of the Coq reals through Flocq (ClassicalDedekindReals.sig_forall_dec, sig_not_dec, FunctionalExtensionality.functional_extensionality_dep, Classical_Prop.classic). Finding (harmless): the loop advances its running vertex by `v0 += v1`, which is not the next stored vertex when the difference is inexact (drift_refuted; within 2u of the edge length, accounted for in the bound). Repetition extrema / counts enter as inputs (C11).",
         "technique": "Coq proof of the winding-number characterisation of a statement-level Gallina model + exhaustive/random differential run of extracted model and specification",
     },
     "prop_file": "Properties_C14",
+    # enable together with the _CoqProject lines Perimeter.v / PerimeterProofs.v / Properties_C14P.v:
+    "extra_prop_files": ["Properties_C14P"],   # binary64 model of Polygon::perimeter: exact-input theorem, error bound, invariances
     "extract_file": "Extract_C14",
     "extracted": ["c14"],
     "driver": "c14",
@@ -14,9 +16,11 @@ CONFIG = {
     "rule": ("every vertex list of length 0..3 (thorough 0..4) on a 4x4 grid against all 81 half-grid query points; random lists "
              "up to 40 vertices with forced degeneracies (repeated vertices, horizontal edges through the query ordinate, queries on "
              "vertices / edges / just off them, self-intersections); group functions on random groups incl. empty ones; area / signed "
-             "area / perimeter with every repetition kind. A case is one polygon (or group) with many query points; non-trivial: at "
+             "area / perimeter with every repetition kind; perimeter additionally on 1500 (thorough 60000) lists of arbitrary finite "
+             "doubles exchanged as bit patterns (kind perimb), compared bit for bit with the extracted binary64 model. A case is one polygon (or group) with many query points; non-trivial: at "
              "least 3 vertices; distinct = distinct (kind, payload)"),
-    "trusted": ["integer coordinates |c| <= 2^24: every difference and cross product is exact in double"],
+    "trusted": ["integer coordinates |c| <= 2^24: every difference and cross product is exact in double",
+                "gcc on x86-64 without -mfma / -ffast-math evaluates each double operation of perimeter() separately in binary64 (checked bit for bit on every run)"],
     "assumptions": ["Repetition::get_extrema / get_count are inputs of the model (decided by C11)"],
 }
 
@@ -26,8 +30,12 @@ def same(kind, impl, model):
 
 
 def nontrivial(kind, payload, r):
+    if kind == "perimb":
+        return len(payload.split("|")[0].split()) >= 6
     return len(payload.split()) >= 8
 
 
 def classify(kind, payload, r, m):
+    if kind.startswith("perim"):
+        return "perimeter-vs-model"
     return "contain-vs-winding" if kind.startswith("pip") else kind + "-vs-spec"
